@@ -147,24 +147,28 @@ func (s ExploreRecursive) hasRecursiveEdge(nextSelector Selector) bool {
 }
 
 func (s ExploreRecursive) replaceRecursiveEdge(nextSelector Selector, replacement Selector) Selector {
+	edgeReplaced := false
+	return s.replaceRecursiveEdgeOnce(nextSelector, replacement, &edgeReplaced)
+}
+
+// replaceRecursiveEdgeOnce substitutes the sequence for the recursion edges of one exploration step.
+// All edges met in one step -- in one union or in unions nested inside it -- stand for the same sequence
+// at the same position, and a union is idempotent: the sequence is substituted for the first edge and the
+// others drop out. (Substituting it per edge multiplies the selector at every recursion level.)
+func (s ExploreRecursive) replaceRecursiveEdgeOnce(nextSelector Selector, replacement Selector, edgeReplaced *bool) Selector {
 	_, isRecursiveEdge := nextSelector.(ExploreRecursiveEdge)
 	if isRecursiveEdge {
+		if *edgeReplaced {
+			return nil
+		}
+		*edgeReplaced = true
 		return replacement
 	}
 	exploreUnion, isUnion := nextSelector.(ExploreUnion)
 	if isUnion {
 		replacementMembers := make([]Selector, 0, len(exploreUnion.Members))
-		edgeReplaced := false
 		for _, selector := range exploreUnion.Members {
-			if _, isEdge := selector.(ExploreRecursiveEdge); isEdge {
-				// Several edges in one union all stand for the same sequence: substitute it once.
-				// (Substituting it per edge multiplies the selector at every recursion level.)
-				if edgeReplaced {
-					continue
-				}
-				edgeReplaced = true
-			}
-			newSelector := s.replaceRecursiveEdge(selector, replacement)
+			newSelector := s.replaceRecursiveEdgeOnce(selector, replacement, edgeReplaced)
 			if newSelector != nil {
 				replacementMembers = append(replacementMembers, newSelector)
 			}
